@@ -179,7 +179,10 @@ def showR (pl : RPlan) : String :=
 def step (line : String) : String :=
   match Proto.fields line with
   | "B" :: rest =>
-    match parseB rest with
+    -- `xk=<class>` / `relx=<class>`: the class of the exception the failing sites raise (InternalRedirect,
+    -- HTTPRedirect, HTTPError, NotFound instead of an ordinary Exception).  Once the request layer is done with
+    -- the body (streamed / explicit Content-Length) the model has one answer for every `Exception` subclass
+    match parseB (rest.filter fun t => !(t.startsWith "xk=" || t.startsWith "relx=")) with
     | some p => showB (conv p)
     | none => "bad-op"
   | "R" :: rest =>
